@@ -230,6 +230,7 @@ func init() {
 }
 
 func progsC05(t *testing.T) {
+	progsSlow(t, "C05")
 	progsInPlaceMonoid(t, "C05", []int{0})
 	typedProgs(t, "C05")
 	for _, n := range thresholds(0, common.Pick(5000, 70000)) {
@@ -317,6 +318,7 @@ func init() {
 }
 
 func progsC08(t *testing.T) {
+	progsSlow(t, "C08")
 	typedProgs(t, "C08")
 	for _, n := range thresholds(1, common.Pick(4100, 70000)) {
 		for i, cp := range []int{0, 1, 3, 16, 17, 100, 1000} {
@@ -499,6 +501,7 @@ func widePars() []int {
 }
 
 func progsC09(t *testing.T) {
+	progsSlow(t, "C09")
 	typedProgs(t, "C09")
 	for _, par := range widePars() {
 		for _, n := range []int{par, 2*par + 1, 4*par + 40, 1000} {
@@ -515,6 +518,7 @@ func progsC09(t *testing.T) {
 }
 
 func progsC10(t *testing.T) {
+	progsSlow(t, "C10")
 	progsInPlaceMonoid(t, "C10", []int{1, 2, 3, 4, 8, 33})
 	for _, par := range widePars() {
 		for _, mon := range []string{"sum", "prod", "max", "min", "and", "or"} {
@@ -799,6 +803,7 @@ func init() {
 }
 
 func progsC12(t *testing.T) {
+	progsSlow(t, "C12")
 	typedProgs(t, "C12")
 	for _, k := range thresholds(1, common.Pick(300, 2100)) {
 		for _, cp := range []int{0, 1} {
@@ -957,6 +962,7 @@ func callerOwnsFill(s []<-chan int, g int) {
 // ---------------------------------------------------------------- C06
 
 func progsC06(t *testing.T) {
+	progsSlow(t, "C06")
 	typedProgs(t, "C06")
 	// a source that fails for good, its errors taken by StdErr (or a reader), then cancel: everything has to go
 	for _, n := range []int{0, 3} {
@@ -1050,6 +1056,173 @@ func progsInPlaceMonoid(t *testing.T, prop string, pars []int) {
 	for _, par := range pars {
 		for _, n := range []int{0, 1, 2, 3, par, par + 1, 10, 100} {
 			runProg(t, prop, &caseT{Stage: "prog/fold-in-place-monoid", Par: par, N: n})
+		}
+	}
+}
+
+// ---------------------------------------------------------------- slow parties
+
+func init() {
+	// nobody is in a hurry: the producer pauses P between sends and every consumer pauses Q between receives, for
+	// pauses from a millisecond to an hour of virtual time. Without a cancel a stage waits as long as it takes.
+	progs["slow-parties"] = func(c *caseT) string {
+		ctx, cancel := context.WithCancel(context.Background())
+		defer cancel()
+		p, q := time.Duration(c.Tick), time.Duration(c.Delay)*time.Millisecond
+		xs := seqInts(1, c.N)
+		in := make(chan int, c.Cap)
+		prodDone := make(chan struct{})
+		go func() {
+			defer close(prodDone)
+			defer close(in)
+			for _, x := range xs {
+				time.Sleep(p)
+				in <- x
+			}
+		}()
+		slowly := func(ch <-chan int) []int {
+			var got []int
+			for v := range ch {
+				got = append(got, v)
+				time.Sleep(q)
+			}
+			return got
+		}
+		odd := func(x int) bool { return x%2 == 1 }
+		var got, want []int
+		switch c.Mode {
+		case "Map":
+			out, exx := pipe.Map(ctx, in, pipe.Pure(func(x int) int { return x * 10 }))
+			go func() {
+				for range exx {
+				}
+			}()
+			got = slowly(out)
+			for _, x := range xs {
+				want = append(want, x*10)
+			}
+		case "FMap":
+			out, exx := pipe.FMap(ctx, in, pipe.LiftF(func(ctx context.Context, x int, o chan<- int) error {
+				for j := 0; j < 2; j++ {
+					select {
+					case o <- x*10 + j:
+					case <-ctx.Done():
+					}
+				}
+				return nil
+			}))
+			go func() {
+				for range exx {
+				}
+			}()
+			got = slowly(out)
+			for _, x := range xs {
+				want = append(want, x*10, x*10+1)
+			}
+		case "Filter":
+			got = slowly(pipe.Filter(ctx, in, pipe.Pure(odd)))
+			for _, x := range xs {
+				if odd(x) {
+					want = append(want, x)
+				}
+			}
+		case "Take":
+			got = slowly(pipe.Take(ctx, in, c.N-1))
+			want = xs[:max(c.N-1, 0)]
+			go func() { // whoever owns the input takes what Take leaves
+				for range in {
+				}
+			}()
+		case "TakeWhile":
+			got = slowly(pipe.TakeWhile(ctx, in, pipe.Pure(func(x int) bool { return x < c.N })))
+			want = xs[:max(c.N-1, 0)]
+			go func() {
+				for range in {
+				}
+			}()
+		case "Partition":
+			l, r := pipe.Partition(ctx, in, pipe.Pure(odd))
+			var rs []int
+			done := make(chan struct{})
+			go func() { defer close(done); rs = slowly(r) }()
+			got = slowly(l)
+			<-done
+			got = append(got, rs...)
+			for _, x := range xs {
+				if odd(x) {
+					want = append(want, x)
+				}
+			}
+			for _, x := range xs {
+				if !odd(x) {
+					want = append(want, x)
+				}
+			}
+		case "Fold":
+			got = slowly(pipe.Fold(ctx, in, monoid.FromOp(7, func(a, b int) int { return a*31 + b })))
+			w := 7
+			for _, x := range xs {
+				w = w*31 + x
+			}
+			want = []int{w}
+		case "ForEach":
+			n := 0
+			<-pipe.ForEach(ctx, in, pipe.Pure(func(x int) int { n++; time.Sleep(q); return x }))
+			got, want = []int{n}, []int{c.N}
+		case "Join":
+			got = slowly(pipe.Join(ctx, in, pipe.Seq[int]()))
+			want = xs
+		case "New":
+			rcv, snd := pipe.New[int](ctx, c.Cap)
+			go func() {
+				for x := range in {
+					snd <- x
+				}
+				close(snd)
+			}()
+			got = slowly(rcv)
+			want = xs
+		case "fork.Map":
+			out, exx := fork.Map(ctx, 3, in, fork.Pure(func(x int) int { time.Sleep(q / 2); return x * 10 }))
+			go func() {
+				for range exx {
+				}
+			}()
+			got = slowly(out)
+			slices.Sort(got)
+			for _, x := range xs {
+				want = append(want, x*10)
+			}
+		case "fork.Fold":
+			got = slowly(fork.Fold(ctx, 3, in, monoid.FromOp(0, func(a, b int) int { return a + b })))
+			want = []int{c.N * (c.N + 1) / 2}
+		}
+		<-prodDone // (Take and TakeWhile end before the producer does)
+		if !slices.Equal(got, want) && !(len(got) == 0 && len(want) == 0) {
+			return fmt.Sprintf("%s with a producer pausing %v and consumers pausing %v: %s", c.Mode, p, q, diffAt(got, want))
+		}
+		return ""
+	}
+}
+
+var slowStages = map[string][]string{
+	"C05": {"Map", "FMap", "Filter", "Take", "TakeWhile", "Partition", "Fold", "ForEach"},
+	"C06": {"Map", "Filter", "Join"},
+	"C08": {"New"}, "C09": {"fork.Map"}, "C10": {"fork.Fold"}, "C12": {"Join"},
+}
+
+func progsSlow(t *testing.T, prop string) {
+	pauses := []time.Duration{0, time.Millisecond, time.Second, time.Minute, time.Hour}
+	for _, st := range slowStages[prop] {
+		for _, p := range pauses {
+			for _, q := range pauses {
+				if p == 0 && q == 0 {
+					continue
+				}
+				for _, cp := range []int{0, 2} {
+					runProg(t, prop, &caseT{Stage: "prog/slow-parties", Mode: st, N: 6, Cap: cp, Tick: int64(p), Delay: int(q / time.Millisecond)})
+				}
+			}
 		}
 	}
 }
